@@ -205,7 +205,7 @@ PROPS = {
     "C05": P("proof", [("eq", 1500, 60000)], ["PT.eq", "PT.eqself", "PT.isid"], rule=RULE),
     "C06": P("proof", [("scarith", 2000, 100000), ("sfarith", 2000, 100000)], ["SC.*", "S.*"], rule=RULE,
              trusted=["math/big Exp/SetBytes/Bytes (Scalar.Pow goes through math/big; modelled as exact modular powering)"]),
-    "C07": P("exploration", [("scenc", 2000, 60000), ("sfenc", 1000, 40000)], ["SC.*", "S.*"], rule=RULE,
+    "C07": P("proof", [("scenc", 2000, 60000), ("sfenc", 1000, 40000)], ["SC.*", "S.*"], rule=RULE,
              trusted=["encoding/hex, encoding/binary (modelled)"]),
     "C08": P("exploration", [("h2c", 60, 3000), ("expand", 300, 20000), ("chosenu", 80, 4000), ("fh2f", 500, 20000)],
              ["H2C.h2g", "H2C.e2g", "H2C.h2gu", "H2C.e2gu", "XMD.*", "F.h2f"], rule=RULE,
@@ -217,8 +217,8 @@ PROPS = {
              "; a history is a sequence of 40 (long: 400) API calls over pools of 4 elements and 4 scalars with 40% aliased choices, every pool variable observed after every step"),
     "C11": P("exploration", [("map", 250, 12000), ("chosenu", 40, 2000)], ["PT.sswu", "PT.map", "PT.iso", "H2C.e2gu"], rule=RULE),
     "C12": P("proof", [("field", 4000, 250000)], ["F.*"], rule=RULE),
-    "C13": P("exploration", [("cmp", 3000, 150000), ("sfcmp", 1000, 50000)], ["SC.*", "S.*"], rule=RULE),
-    "C14": P("exploration", [("bits", 1500, 100000)], ["SC.bits"], rule=RULE),
+    "C13": P("proof", [("cmp", 3000, 150000), ("sfcmp", 1000, 50000)], ["SC.*", "S.*"], rule=RULE),
+    "C14": P("proof", [("bits", 1500, 100000)], ["SC.bits"], rule=RULE),
     "C15": P("exploration", [], None, special=[special_mem], rule=RULE +
              "; memory: every slice argument carved out of a sentinel-filled backing array in 7 layouts, backing arrays compared before/after",
              trusted=["Go runtime allocator and escape analysis are not modelled: 'fresh' means not aliasing any buffer the model knows"]),
